@@ -77,6 +77,33 @@ pub fn exec(op: &str, a: &[u64]) -> Result<Outcome, String> {
             }
             Ok(o)
         }
+        "modeswitch" => {
+            // the four functions in code-point mode straight after the same calls in grapheme mode on the same text
+            // (the answer of one mode must not depend on what the other mode computed before).  The request is a plain
+            // code-point list; the answer is that of the code-point mode.
+            let cps = r.nats()?;
+            r.end()?;
+            let s = cps_to_string(&cps)?;
+            let _ = (clean(&s, true), word_boundaries(&s, true), remove(&s, true), full(&s, true));
+            let (c, wb, rm, fl) = (clean(&s, false), word_boundaries(&s, false), remove(&s, false), full(&s, false));
+            let mut v = vec![];
+            enc_str(&mut v, &c);
+            v.push(wb.len() as u64);
+            for &(a, b) in &wb {
+                v.extend([a as u64, b as u64]);
+            }
+            enc_str(&mut v, &rm);
+            enc_str(&mut v, &fl);
+            let mut o = Outcome::new(ok(v));
+            o.check(c == s.split_whitespace().collect::<Vec<_>>().join(" "), "clean != split_whitespace().join(' ') (code-point mode after grapheme mode)");
+            o.check(rm == gen::remove_ws(&s), "remove != string without whitespace characters (code-point mode after grapheme mode)");
+            let want: Vec<String> = s.chars().filter(|c| !c.is_whitespace()).map(|c| c.to_string()).collect();
+            o.check(fl == want.join(" "), "full != remaining characters separated by one space (code-point mode after grapheme mode)");
+            let chars: Vec<char> = s.chars().collect();
+            let words: Vec<&str> = s.split_whitespace().collect();
+            o.check(wb.len() == words.len() && wb.iter().zip(&words).all(|(&(a, b), w)| a < b && b <= chars.len() && chars[a..b].iter().collect::<String>() == **w), "word boundaries are not the code-point ranges of the words (code-point mode after grapheme mode)");
+            Ok(o)
+        }
         "wb" => {
             let (g, s) = r.gtext()?;
             r.end()?;
@@ -162,6 +189,70 @@ pub fn exec(op: &str, a: &[u64]) -> Result<Outcome, String> {
                     Ok(o)
                 }
             }
+        }
+        "wslabels" => {
+            // the whitespace-correction task on a given (input, target) pair: the labels are operations(input, target)
+            // between -1 labels for the prefix / suffix tokens, whatever tokenizer the task is configured with
+            // (tk: 0 character tokenizer in the task's mode, 1 character tokenizer in the other mode, 2 byte tokenizer)
+            let g = r.bool()?;
+            let ft = r.text()?;
+            let tt = r.text()?;
+            let tk = r.nat()?;
+            let np = r.usize()?;
+            let ns = r.usize()?;
+            r.end()?;
+            let f = text_to_string(&ft)?;
+            let t = text_to_string(&tt)?;
+            if enc_text(&f, g) != enc_text_raw(&ft) || enc_text(&t, g) != enc_text_raw(&tt) {
+                return Err("segmentation differs from request".into());
+            }
+            let nonws = |x: &str| clusters(x, g).into_iter().filter(|c| !c.iter().all(|&u| char::from_u32(u as u32).unwrap().is_whitespace())).collect::<Vec<_>>();
+            let in_domain = gen::is_clean_str(&f) && gen::is_clean_str(&t) && gen::remove_ws(&f) == gen::remove_ws(&t) && unmixed(&f, g) && unmixed(&t, g);
+            if g && in_domain && nonws(&f) != nonws(&t) {
+                return Err("F14 pair (a space splits a cluster of the other text): covered by wsops".into());
+            }
+            use text_utils::data::task::{train_task, TrainTaskConfig};
+            use text_utils::data::TrainTaskInput;
+            use text_utils::tokenization::{ByteGroups, ByteTokenizerConfig, CharTokenizerConfig, GroupAggregation, SpecialConfig, TokenizeConfig, TokenizerConfig};
+            let special = SpecialConfig { prefix: vec!["<bos>".to_string(); np], suffix: vec!["<eos>".to_string(); ns], ..SpecialConfig::default() };
+            let tokenize = match tk {
+                0 => TokenizeConfig::Character(CharTokenizerConfig { use_graphemes: g, unk_token: "<unk>".to_string() }),
+                1 => TokenizeConfig::Character(CharTokenizerConfig { use_graphemes: !g, unk_token: "<unk>".to_string() }),
+                2 => TokenizeConfig::Byte(ByteTokenizerConfig { use_graphemes: g, pad_to_multiple_of: None, groups: ByteGroups::Bytes, aggregation: GroupAggregation::Mean }),
+                _ => return Err("bad tokenizer kind".into()),
+            };
+            let task = train_task(TrainTaskConfig::WhitespaceCorrection(g, TokenizerConfig { tokenize, special }));
+            let item = TrainData::new(f.clone(), Some(t.clone()));
+            let mut o;
+            match task(&item) {
+                Ok(TrainTaskInput::SequenceClassification { token_ids, labels, .. }) => {
+                    let mut v = vec![];
+                    enc_nats(&mut v, labels.iter().map(|l| (*l + 1) as u64));
+                    o = Outcome::new(ok(v));
+                    let n_chars = CS::new(&f, g).len();
+                    o.check(labels.len() >= np + ns && labels[..np.min(labels.len())].iter().all(|l| *l == -1) && labels[labels.len().saturating_sub(ns)..].iter().all(|l| *l == -1), "prefix / suffix tokens do not carry the ignore label -1");
+                    if tk == 0 {
+                        o.check(labels.len() == token_ids.len(), "not one label per token");
+                    }
+                    if in_domain {
+                        o.check(labels.len() == np + n_chars + ns, "not one label per character of the input (plus prefix and suffix)");
+                        if labels.len() == np + n_chars + ns {
+                            let mid: Vec<Operation> = labels[np..np + n_chars].iter().filter_map(|l| op_of(*l as u64).ok()).collect();
+                            o.check(mid.len() == n_chars, "a character carries a label that is not an operation");
+                            o.check(matches!(operations(&f, &t, g), Ok(ref ops) if *ops == mid), "the labels are not operations(input, target)");
+                            if mid.len() == n_chars {
+                                o.check(matches!(repair(&f, &mid, g), Ok(ref rep) if *rep == t), "repairing the input with the labels of its characters does not give the target");
+                            }
+                        }
+                    }
+                }
+                Ok(_) => return Err("unexpected task input kind".into()),
+                Err(_) => {
+                    o = Outcome::new(err("task"));
+                    o.check(!in_domain, "the whitespace-correction task failed on clean whitespace-equivalent texts");
+                }
+            }
+            Ok(o)
         }
         "repair" => {
             let (g, s) = r.gtext()?;
@@ -400,6 +491,17 @@ pub fn run_c11(ctx: &mut Ctx) {
         for op in ["clean", "wb", "remove", "full"] {
             ctx.case(op, &req_gtext(&s, g));
         }
+        if i % 5 == 2 {
+            // both modes back to back on one text of 60-300 bytes with multi-code-point clusters
+            let mut t = String::new();
+            while t.len() < 60 + (i as usize % 7) * 40 {
+                t.push_str(&gen::ws_text(&mut ctx.rng, 12, true));
+                t.push_str(["e\u{301}", " \u{301}", "x\u{30c}", "\u{1F468}\u{200D}\u{1F469}", "\r\n"][ctx.rng.random_range(0..5)]);
+            }
+            let mut v = vec![];
+            enc_str(&mut v, &t);
+            ctx.case("modeswitch", &v);
+        }
     }
 }
 
@@ -464,6 +566,20 @@ pub fn run_c10(ctx: &mut Ctx) {
         v.extend(enc_text(&f, g));
         v.extend(enc_text(&t, g));
         ctx.case("wsops", &v);
+        if i % 4 == 1 {
+            // the task that derives its labels from operations(): the same pair or an identical pair (nothing to
+            // correct), every tokenizer kind, 0-2 prefix / suffix tokens
+            let (f2, t2) = if ctx.rng.random_range(0..3) == 0 { (t.clone(), t.clone()) } else { (f.clone(), t.clone()) };
+            let nonws = |x: &str| clusters(x, g).into_iter().filter(|c| !c.iter().all(|&u| char::from_u32(u as u32).unwrap().is_whitespace())).collect::<Vec<_>>();
+            let dom = gen::is_clean_str(&f2) && gen::is_clean_str(&t2) && gen::remove_ws(&f2) == gen::remove_ws(&t2) && unmixed(&f2, g) && unmixed(&t2, g);
+            if !(g && dom && nonws(&f2) != nonws(&t2)) && f2.len() < 4000 {
+                let mut v = vec![g as u64];
+                v.extend(enc_text(&f2, g));
+                v.extend(enc_text(&t2, g));
+                v.extend([ctx.rng.random_range(0..3u64), ctx.rng.random_range(0..=2u64), ctx.rng.random_range(0..=2u64)]);
+                ctx.case("wslabels", &v);
+            }
+        }
         // repair with arbitrary operation sequences (matching length 85 %)
         let s = if i % 2 == 0 { f } else { gen::ws_text(&mut ctx.rng, 10, exotic) };
         let n = CS::new(&s, g).len();
@@ -506,6 +622,10 @@ pub fn run_c14(ctx: &mut Ctx) {
             }
         } else if i % 20 == 19 {
             gen::ws_text(&mut ctx.rng, 10, true)
+        } else if i % 12 == 6 {
+            // texts that spell special tokens of the task's tokenizer, whole or in parts that whitespace deletion joins
+            let words = ["<unk>", "<bos>", "<eos>", "<pad>", "<", "pad", ">", "unk", "<pad", "ab", "\u{e4}"];
+            (0..ctx.rng.random_range(1..=7)).map(|_| words[ctx.rng.random_range(0..words.len())]).collect::<Vec<_>>().join(" ")
         } else {
             gen::clean_text(&mut ctx.rng, 6, i % 3 != 0)
         };
@@ -529,7 +649,7 @@ pub fn run_c14(ctx: &mut Ctx) {
         };
         enc_str(&mut v, &out);
         ctx.case("corruptws", &v);
-        if i % 3 == 0 && gen::is_clean_str(&s) && unmixed(&s, g) {
+        if (i % 3 == 0 || i % 12 == 6) && gen::is_clean_str(&s) && unmixed(&s, g) {
             // the whitespace-correction task on the corrupted item (clean texts: the property's domain), with 0-2
             // prefix and suffix tokens
             let np = ctx.rng.random_range(0..=2u64);
